@@ -232,6 +232,7 @@ unit_map_thread(ABTI_global *p_global, ABT_unit unit, ABTI_thread *p_thread)
     while (p_cur) {
         if (atomic_relaxed_load_unit(&p_cur->unit) == ABT_UNIT_NULL) {
             /* Empty element has been found.  Let's use this. */
+            ABTV_REACH("unit.tombstone_reused");
             atomic_relaxed_store_unit(&p_cur->unit, unit);
             /* p_cur is associated with this unit. */
             p_cur->p_thread = p_thread;
